@@ -48,7 +48,14 @@ impl<T> MethodMatcher<T> {
 
                         return;
                     }
+                    let mut seen = HashSet::new();
+
                     for method in methods {
+                        // The same method given twice must not store (and count) the route twice
+                        if !seen.insert(method) {
+                            continue;
+                        }
+
                         if !self.methods.contains_key(method) {
                             self.methods.insert(method.to_string(), HeaderMatcher::new(config.clone()));
                         }
